@@ -246,6 +246,14 @@ cfg["C14"] = {
     "assumptions": ledger_assume + ["a crash is modelled by freezing the world: the interrupted operation keeps executing its error paths in memory but no call has any effect any more (equivalent to process death for everything persistent)", "lock leases of the dead process have expired when the new instance starts"],
 }
 
+cfg["C30"] = {
+    "title": "Run-and-wait workloads are always cleaned up", "design_ref": "DESIGN.md §7.2 / §7.5",
+    "runs": [{"dir": CAL, "inline_go": True, "quick": P("VerifRunAndWait", "count=2"), "thorough": P("VerifRunAndWait", "count=2", "count=3"), "samples": 4}],
+    "bounds": "Calcium.RunAndWait (no stdin) through the exported API on top of the real CreateWorkload pipeline: AUTO over two nodes with 0-2 deployable slots (symbolic), count 1-2 (thorough 3), exit code in {0,1,255}; engine outcomes: logs and wait succeed, or the n-th fetch-logs call fails, or the n-th wait call fails. ONE sequential schedule (goroutines run to completion at spawn, channels are FIFO queues); log streams end immediately",
+    "outside": "other interleavings; stdin/attach mode; log content forwarding (bufio scanning of real output); failures of the removal itself (the property quantifies over log/wait outcomes); the RPC layer on top (rpc.go)",
+    "assumptions": ledger_assume,
+}
+
 meta = {
     "C01": "Every feasible path of strategy.Deploy and the five real strategy functions (real container/heap and sort SSA) is executed with capacities, counts, need, limit, usage and rate symbolic; on each path z3 proves the plan assertions (only candidates, 0<=d<=capacity, exact totals, EACH/FILL selection sizes, AUTO node limit) for all values inside the bounds, or returns a model that is replayed natively. Bounded by node count and, for AUTO/GLOBAL, by need.",
     "C02": "Same exploration; on every path z3 proves err==nil <=> a harness-side reference feasibility predicate (saturating sums, no wrap) and that a refusal returns no plan.",
@@ -265,6 +273,7 @@ meta = {
     "C16": "wal.Hydro.Log/Recover/recover/decodeEvent run from real SSA over a model KV; operation sequences and all handler outcomes are symbolic; z3-decided paths prove handlers run only for logged-and-uncommitted events, in logging order, at most once per recovery, removal iff handled or unnecessary, ids strictly increasing.",
     "C29": "rpc.toSendLargeFileChunks is executed on a content slice whose LENGTH is a symbolic integer; z3 proves for every length in range that the chunks are consecutive, non-empty, at most 2048 bytes, cover [0,L) exactly and carry size/targets/owner/mode.",
     "C36": "interceptor.NewStreamRetry and retryStream.{SendMsg,RecvMsg,getStream,setStream} are executed against model streams with symbolic per-call outcomes; z3-decided paths prove raw stream for unlisted methods, re-send of the original request on the reopened stream, messages from the newest stream, reopen attempts within Max+1, no retry after context.Canceled.",
+    "C30": "The real RunAndWait (lambda closure, processStdStream, doRemoveWorkloadSync -> RemoveWorkload pipeline, WAL create-lambda event) runs against the ledger world under the run-to-completion goroutine model with symbolic engine outcomes for logs and wait; z3-decided paths prove every started workload ends removed (record, container, usage), its last message is the exit code unless logs/wait failed, every log entry is committed and the stream closes (a receive that can never be satisfied is a hang violation).",
     "C31": "docker.makeResourceSetting and (*Engine).VirtualizationUpdateResource are executed with symbolic CPU (1/4096 grid), memory, cpu map and NUMA node; z3 proves cpuset = exactly the allocated cores, cpuset-mems = NUMA node, quota -1 when bound, shares = round(1024*frac), quota = cpu*period when unbound, memory caps.",
     "C17": "utils.Txn and utils.PCR are executed for every outcome vector and caller-cancellation point (symbolic Booleans / choices, complete finite space); z3 decides each branch; assertions: then iff cond ok, rollback exactly once iff a step failed with the right flag, first failure returned, rollback context not cancelled by the caller.",
     "C20": "The lock wrappers (withNodesPodLocked, withNodeOperationLocked, withWorkloadsLocked) and the sequential ReallocResource are executed over symbolic include/id lists and pod assignments with recording locks; the acquisition trace must be strictly ascending within pod locks and within workload locks, pod before workload, and everything released.",
